@@ -281,7 +281,7 @@ CTOR_PROPS = [
 ]
 
 
-def plain_constructors(P):
+def plain_constructors(P, also=()):
     """id -> rendering of the value a *called* plain constructor of the crate builds from its parameters (no loop, no branch, one
     exit, result is one of the crate's own types).  The rules read calls of these by name; what they build is checked here."""
     unc = mirlib_uncalled(P)
@@ -294,7 +294,7 @@ def plain_constructors(P):
                 called.add(c['path'])
     out = {}
     for f in P.fns.values():
-        if f.raw.get('derived') or f.kind == 'Closure' or f.id in unc or f.id not in called:
+        if f.raw.get('derived') or f.kind == 'Closure' or f.id in unc or (f.id not in called and f.id not in also):
             continue
         if not re.match(r'^<?(grammar|semantic)::', f.id) or f.loops() or f.switches() or len(f.exits()) != 1:
             continue
@@ -338,7 +338,7 @@ def constructor_shapes(ctx):
     except Exception as e:
         ctx.fail_closed(['C14'], 'R-TABLE', 'ctor|reference', 'spec/ctors.json missing or unreadable: %s' % e)
         return
-    cur = plain_constructors(P)
+    cur = plain_constructors(P, also=set(ref))        # (a reviewed constructor that is no longer called is still what it was)
     n = 0
     for fid, want in sorted(ref.items()):
         if fid not in P.fns:
